@@ -231,6 +231,10 @@ func (p *ParagraphReader) Next() (*Paragraph, error) {
 
 			/* TrimFunc(line[1:], unicode.IsSpace) is identical to calling
 			 * TrimSpace. */
+			if len(paragraph.Order) == 0 {
+				return nil, fmt.Errorf("Bad line: continuation line '%s' before any field", line)
+			}
+
 			line = strings.TrimRightFunc(line[1:], unicode.IsSpace)
 
 			if line == "." {
